@@ -338,7 +338,7 @@ def run_check(modname, argv):
         if hasattr(prop, 'widen'):
             for i in mism[:20]:
                 extra += prop.widen(rng, cases[i])
-        extra += prop.generate(rng, min(10 * n, 20000), 'thorough')
+        extra += prop.generate(rng, min(4 * n, 6000), "thorough")
         widened = len(extra)
         obs2 = run_impl_all(prop, modname, extra, args.jobs)
         for j, (c, o) in enumerate(zip(extra, obs2)):
